@@ -106,7 +106,6 @@ Definition bad_name_b (name_max : N) (n : name) : bool :=
   negb (forallb (fun b => negb (bool_decide (b = b_slash)) && negb (bool_decide (b = x00))) n).
 
 (* insertion-based set construction (stdpp's union-based list_to_set is quadratic when run) *)
-Definition gs_add `{Countable K} (x : K) (s : gset K) : gset K := Mapset (<[x := ()]> (mapset_car s)).
 Definition gs_of_list `{Countable K} (l : list K) : gset K := fold_left (fun s x => gs_add x s) l ∅.
 
 Fixpoint has_dup (l : list name) (seen : gset name) : bool :=
